@@ -17,6 +17,7 @@ package main
 
 import (
 	"bytes"
+	"encoding/json"
 	"fmt"
 	"io/ioutil"
 	"math/rand"
@@ -26,6 +27,7 @@ import (
 	"sort"
 	"strings"
 
+	"github.com/brutella/hc/db"
 	"github.com/brutella/hc/util"
 	"hcverif/harness/internal/fstrace"
 )
@@ -388,9 +390,86 @@ func c19Unstorable(c *Ctx) {
 	}
 }
 
+// c19DeleteCrash: a removal (Delete of a key, DeleteEntity of a pairing) killed at every file-system call it makes: the
+// key then holds its value, in full, or is gone — nothing in between (and the other keys are untouched).
+func c19DeleteCrash(c *Ctx) {
+	probe := c19Probe(c)
+	root := c.ScratchDir()
+	n := 0
+	for i, kind := range []string{"del", "delent"} {
+		id := "delete-crash#" + kind
+		if c.Skip(id) {
+			continue
+		}
+		r := c.CaseRng("delete-crash", i)
+		name := "ctrl-delete"
+		key, old := "k.dat", randBytes(r, 40+r.Intn(200))
+		arg := hx([]byte(key))
+		if kind == "delent" {
+			key = hx([]byte(name)) + ".entity"
+			old, _ = json.Marshal(db.NewEntity(name, randBytes(r, 32), nil))
+			arg = hx([]byte(name))
+		}
+		prepare := func() string {
+			n++
+			d := filepath.Join(root, fmt.Sprintf("dc%d", n), "store")
+			c19Populate(d, map[string][]byte{key: old, "other": []byte("bystander")})
+			return d
+		}
+		state := func(d string) string {
+			got, err := ioutil.ReadFile(filepath.Join(d, key))
+			by, _ := ioutil.ReadFile(filepath.Join(d, "other"))
+			switch {
+			case string(by) != "bystander":
+				return "another key changed"
+			case os.IsNotExist(err):
+				return ""
+			case err != nil:
+				return err.Error()
+			case !bytes.Equal(got, old):
+				allZero := len(got) > 0
+				for _, b := range got {
+					allZero = allZero && b == 0
+				}
+				return fmt.Sprintf("the key holds %d bytes that are not its value (all zero: %v)", len(got), allZero)
+			}
+			return ""
+		}
+		argv := func(d string) []string { return []string{probe, kind, d, arg} }
+		d0 := prepare()
+		calls, _, runErr, err := fstrace.Record(root, d0, argv(d0), "")
+		if err != nil {
+			fatal("strace: %v", err)
+		}
+		in := map[string]interface{}{"operation": map[string]string{"del": "Delete(key)", "delent": "DeleteEntity(pairing)"}[kind], "value_bytes": len(old), "system_calls": callDescr(calls)}
+		if _, err := os.Stat(filepath.Join(d0, key)); runErr != nil || err == nil {
+			c.Violate("a completed removal leaves the key behind", id, in, "gone", fmt.Sprint(runErr, err))
+		}
+		os.RemoveAll(filepath.Dir(d0))
+		for j, call := range calls {
+			d := prepare()
+			_, _, kerr, err := fstrace.Record(root, d, argv(d), fmt.Sprintf("%s:signal=SIGKILL:when=%d", call.Name, call.Nth))
+			if err != nil {
+				fatal("strace: %v", err)
+			}
+			pin := map[string]interface{}{"operation": in["operation"], "value_bytes": len(old), "system_calls": callDescr(calls), "killed_on_entering_system_call": j, "call": call.Descr}
+			if kerr == nil {
+				c.Mismatch("kill-injection", id, pin, "process killed at "+call.Descr, "process ran to completion")
+			} else if msg := state(d); msg != "" {
+				c.Violate("crash during a removal leaves a value under the key that is neither its value nor nothing", id, pin, "the value in full, or no key", msg)
+			}
+			os.RemoveAll(filepath.Dir(d))
+			c.Hist("kill:" + call.Name)
+		}
+		c.Count(id, true, "stream:delete-crash", fmt.Sprintf("delete-crash:syscalls=%d", len(calls)))
+	}
+}
+
 func checkC19(c *Ctx) {
 	storageFaults(c, "C19")
 	c19Unstorable(c)
+	c19DeleteCrash(c)
+	c18ConcurrentSet(c) // two writers of one key (two storage objects on the directory): a reader — or a crash — sees whole values only
 	c18TempSpellings(c) // a key whose file is another key's temporary file is damaged by that key's writes, crash or not
 	c.SetRule("trace: one case = one real storage write (Set / SaveEntity / the three Sets of Config.save) on a seeded directory " +
 		"(old value absent / empty / shorter / equal / longer, bystander files, sometimes a stale temporary sibling), recorded with strace; " +
